@@ -65,6 +65,11 @@ def items_table(prog):
 A2ML_CALLS = re.compile(r"a2ml::(parse_aml_\w+|tokenize_\w+|require_\w+|nexttoken|make_errtxt|parse_a2ml)$|HashMap(<.*>)?::insert$|Vec(<.*>)?::push$")
 
 
+def c05_entry(prog):
+    from . import c05
+    return c05.entry_table(prog)
+
+
 def a2ml_table(prog):
     """decision table of the A2ML scanner and type parser (a2ml.rs): which sub-parser is called for which token with which flags,
     which A2mlTypeSpec is built, how the scan position and the include state machine move"""
@@ -326,6 +331,13 @@ def run(chk):
         nts += len(want & stored)
     chk.rule("R18-typespec", "A2ML compound type parsers that build exactly their own A2mlTypeSpec variant", nts, floor=4)
     # ------------------------------------------------------------------ R18-aml
+    # interpreted IF_DATA is written back from the same tree: each variant's value goes to the writer unchanged
+    from . import writertab
+    writertab.compare_ifdata(chk, "R18-writer", floor=22)
+    # which definitions the IF_DATA parser tries: ParserState.a2mlspec is filled by load_impl / load_fragment (built-in definition)
+    # and by A2ml::parse (in-file definition), by push only
+    diag.compare(chk, "R18-spec", "entry", c05_entry(prog), "set-up of the list of A2ML definitions (built-in first, in-file appended): rows of load_impl, load_fragment and A2ml::parse, compared with the reviewed table", floor=8,
+                 fn_filter=lambda fn: fn in ("specification::A2ml::parse", "load_impl", "load_fragment"))
     # where the in-file A2ML block ends is decided by tokenizer::handle_a2ml (comments and strings inside the block are skipped so
     # that an `/end` inside them does not end it): its scan steps with their conditions
     from . import c05
